@@ -133,37 +133,6 @@ impl<'a> Projector<'a> {
         self.push("C", "", close_line);
     }
 
-    /// a branch of an if; prefix is "I" (then) or "E" (else)
-    fn branch(&mut self, prefix: &str, line: usize, branch: &Statement) {
-        match (prefix, branch) {
-            ("I", Statement::Goto { label, .. }) => self.push("IG", &label.name, line),
-            ("I", Statement::Block(b)) => self.block("IO", line, b),
-            ("E", Statement::Goto { label, .. }) => self.push("EG", &label.name, line),
-            ("E", Statement::Block(b)) => self.block("EO", line, b),
-            ("E", Statement::If { condition: _, then_branch, else_branch, location }) => {
-                // else if ...: on the same line as the else in our renderings
-                match &**then_branch {
-                    Statement::Goto { label, .. } if location.line_number == line => {
-                        self.push("EIG", &label.name, line)
-                    }
-                    Statement::Block(b) if location.line_number == line => self.block("EIO", line, b),
-                    other => {
-                        self.push("E", "", line);
-                        self.push("I", "", location.line_number);
-                        self.statement(other);
-                    }
-                }
-                if let Some(e) = else_branch {
-                    self.branch("E", e.location_of_else.line_number, &e.branch);
-                }
-            }
-            (p, other) => {
-                self.push(p, "", line);
-                self.statement(other);
-            }
-        }
-    }
-
     fn statement(&mut self, s: &Statement) {
         match s {
             Statement::Declaration { name, location, .. } => self.push("V", &name.name, location.line_number),
@@ -186,9 +155,11 @@ impl<'a> Projector<'a> {
             Statement::Goto { label, location } => self.push("G", &label.name, location.line_number),
             Statement::Label { label, location } => self.push("L", &label.name, location.line_number),
             Statement::If { condition: _, then_branch, else_branch, location } => {
-                self.branch("I", location.line_number, then_branch);
+                self.push("I", "", location.line_number);
+                self.statement(then_branch);
                 if let Some(e) = else_branch {
-                    self.branch("E", e.location_of_else.line_number, &e.branch);
+                    self.push("E", "", e.location_of_else.line_number);
+                    self.statement(&e.branch);
                 }
             }
             Statement::Block(b) => self.block("O", b.location.line_number, b),
@@ -231,5 +202,56 @@ pub fn project(source: &str, declarations: &[Declaration]) -> Option<Projection>
     if !seen_fn || !p.ok {
         return None;
     }
-    Some(Projection { consts, params, items: p.items, lines: p.lines })
+    let (items, lines) = merge_same_line(p.items, p.lines);
+    Some(Projection { consts, params, items, lines })
+}
+
+/// Tokens that share a source line are merged into the compact item forms.
+fn merge_same_line(items: Vec<Item>, lines: Vec<usize>) -> (Vec<Item>, Vec<usize>) {
+    let mut out_items = Vec::new();
+    let mut out_lines = Vec::new();
+    let mut i = 0;
+    while i < items.len() {
+        let same = |j: usize| j < items.len() && lines[j] == lines[i];
+        let k = |j: usize| items[j].kind.as_str();
+        let (item, used) = if same(i + 2) && k(i) == "E" && k(i + 1) == "I" && k(i + 2) == "G" {
+            (Item::new("EIG", &items[i + 2].name), 3)
+        } else if same(i + 2) && k(i) == "E" && k(i + 1) == "I" && k(i + 2) == "O" {
+            (Item::new("EIO", ""), 3)
+        } else if same(i + 1) && k(i) == "I" && k(i + 1) == "G" {
+            (Item::new("IG", &items[i + 1].name), 2)
+        } else if same(i + 1) && k(i) == "I" && k(i + 1) == "O" {
+            (Item::new("IO", ""), 2)
+        } else if same(i + 1) && k(i) == "E" && k(i + 1) == "G" {
+            (Item::new("EG", &items[i + 1].name), 2)
+        } else if same(i + 1) && k(i) == "E" && k(i + 1) == "O" {
+            (Item::new("EO", ""), 2)
+        } else {
+            (items[i].clone(), 1)
+        };
+        out_items.push(item);
+        out_lines.push(lines[i]);
+        i += used;
+    }
+    (out_items, out_lines)
+}
+
+/// Expand compact items into primitive tokens (kind, name, position of the item).
+pub fn expand(items: &[Item]) -> Vec<(String, String, usize)> {
+    let mut out = Vec::new();
+    for (i, it) in items.iter().enumerate() {
+        let p = i + 1;
+        let n = it.name.clone();
+        let mut t = |k: &str, n: &str| out.push((k.to_string(), n.to_string(), p));
+        match it.kind.as_str() {
+            "IG" => { t("I", ""); t("G", &n); }
+            "IO" => { t("I", ""); t("O", ""); }
+            "EG" => { t("E", ""); t("G", &n); }
+            "EO" => { t("E", ""); t("O", ""); }
+            "EIG" => { t("E", ""); t("I", ""); t("G", &n); }
+            "EIO" => { t("E", ""); t("I", ""); t("O", ""); }
+            k => t(k, &n),
+        }
+    }
+    out
 }
